@@ -36,6 +36,16 @@ pub struct ErrSource(Option<Box<dyn std::error::Error + Send + Sync + 'static>>)
     u.raw(cm.impl_header(r"impl From<CacheErrorKind> for CacheError") + "{\n", "glue")
     u.emit(fr)
     u.raw("}\n", "glue")
+    # CacheError::kind: the observation point of the property (what the caller sees of the error)
+    kd = cm.impl_fn(r"impl CacheError", "kind")
+    kd.ret("ret")
+    kd.props_all = ["C11"]
+    kd.props_safety = ["C12"]
+    kd.contracted = True
+    kd.contract("    ensures /*@L:kind_accessor_returns_the_stored_kind:C11*/ ret == self.kind,")
+    u.raw(cm.impl_header(r"impl CacheError") + "{\n", "glue")
+    u.emit(kd)
+    u.raw("}\n", "glue")
 
     u.raw("pub mod raw {\nuse super::*;\n", "glue")
     for cname in ("PRGCACHE_MAGIC_BYTES", "PRGCACHE_MAGIC", "PRGCACHE_MAGIC_FLIPPED"):
